@@ -63,6 +63,8 @@ pub mod ffi {
                 // `out` must be a valid RotoOption<T>.
                 unsafe { out.cast::<u8>().write(1) };
 
+                #[cfg(nlnetlabs_roto_verif)]
+                crate::verif_api::yield_point(11);
                 let raw = this.0.lock().unwrap();
                 let size = raw.vtable.size();
                 let alignment = raw.vtable.align();
@@ -169,6 +171,8 @@ pub mod boundary {
                 return true;
             }
 
+            #[cfg(nlnetlabs_roto_verif)]
+            crate::verif_api::yield_point(12);
             let this = self.inner.0.lock().unwrap();
 
             // SAFETY: The rawlist represents a slice of T::Transformed so
@@ -181,6 +185,8 @@ pub mod boundary {
                 )
             };
 
+            #[cfg(nlnetlabs_roto_verif)]
+            crate::verif_api::yield_point(13);
             let other = self.inner.0.lock().unwrap();
 
             // SAFETY: The rawlist represents a slice of T::Transformed so
@@ -242,6 +248,8 @@ pub mod boundary {
         /// Get the element at index `idx`
         pub fn get(&self, idx: usize) -> Option<T> {
             let ptr = self.inner.get(idx)?;
+            #[cfg(nlnetlabs_roto_verif)]
+            crate::verif_api::yield_point(1);
 
             // SAFETY: The list has values of T::Transformed, which means that
             // this cast is valid.
@@ -315,6 +323,8 @@ pub mod boundary {
     impl<T: Clone + Value> List<T> {
         /// Convert this [`List`] into a regular [`Vec`].
         pub fn to_vec(&self) -> Vec<T> {
+            #[cfg(nlnetlabs_roto_verif)]
+            crate::verif_api::yield_point(14);
             let guard = self.inner.0.lock().unwrap();
 
             // SAFETY: The RawList always contains a valid slice. Even if the
@@ -453,7 +463,11 @@ impl PartialEq for ErasedList {
             return true;
         }
 
+        #[cfg(nlnetlabs_roto_verif)]
+        crate::verif_api::yield_point(15);
         let this = self.0.lock().unwrap();
+        #[cfg(nlnetlabs_roto_verif)]
+        crate::verif_api::yield_point(16);
         let other = other.0.lock().unwrap();
 
         if this.len != other.len {
@@ -495,6 +509,8 @@ impl ErasedList {
     pub unsafe fn push(&self, elem_ptr: NonNull<T>) {
         // SAFETY: We require that `elem_ptr` must be a pointer to the element
         // type `T` that the list contains.
+        #[cfg(nlnetlabs_roto_verif)]
+        crate::verif_api::yield_point(17);
         unsafe { self.0.lock().unwrap().push(elem_ptr) };
     }
 
@@ -505,6 +521,8 @@ impl ErasedList {
     /// Both `self` and `other` must have the same element type.
     ///
     pub unsafe fn concat(&self, other: &Self) -> Self {
+        #[cfg(nlnetlabs_roto_verif)]
+        crate::verif_api::yield_point(18);
         let a = self.0.lock().unwrap();
 
         let new = Self::new(a.vtable.clone());
@@ -517,6 +535,8 @@ impl ErasedList {
         // We need to ensure we don't lock the mutex twice
         drop(a);
 
+        #[cfg(nlnetlabs_roto_verif)]
+        crate::verif_api::yield_point(19);
         let b = other.0.lock().unwrap();
 
         // SAFETY: raw and b have the same element type
@@ -530,6 +550,8 @@ impl ErasedList {
     }
 
     pub fn get(&self, idx: usize) -> Option<NonNull<T>> {
+        #[cfg(nlnetlabs_roto_verif)]
+        crate::verif_api::yield_point(20);
         self.0.lock().unwrap().get(idx)
     }
 
@@ -543,6 +565,8 @@ impl ErasedList {
     pub unsafe fn contains(&self, item_ptr: NonNull<T>) -> bool {
         // SAFETY: We require that the item_ptr points to the same type as in
         // the list.
+        #[cfg(nlnetlabs_roto_verif)]
+        crate::verif_api::yield_point(21);
         unsafe { self.0.lock().unwrap().contains(item_ptr) }
     }
 
@@ -554,6 +578,8 @@ impl ErasedList {
     ///  - There must be no references to that value.
     ///  - The value cannot be used after this function.
     pub unsafe fn contains_owned(&self, item_ptr: NonNull<T>) -> bool {
+        #[cfg(nlnetlabs_roto_verif)]
+        crate::verif_api::yield_point(22);
         let raw = self.0.lock().unwrap();
 
         // SAFETY: We require that the item_ptr points to the same type as in
@@ -580,6 +606,8 @@ impl ErasedList {
     pub unsafe fn index(&self, item_ptr: NonNull<T>) -> Option<usize> {
         // SAFETY: We require that the item_ptr points to the same type as in
         // the list.
+        #[cfg(nlnetlabs_roto_verif)]
+        crate::verif_api::yield_point(23);
         unsafe { self.0.lock().unwrap().index(item_ptr) }
     }
 
@@ -591,6 +619,8 @@ impl ErasedList {
     ///  - There must be no references to that value.
     ///  - The value cannot be used after this function.
     pub unsafe fn index_owned(&self, item_ptr: NonNull<T>) -> Option<usize> {
+        #[cfg(nlnetlabs_roto_verif)]
+        crate::verif_api::yield_point(24);
         let raw = self.0.lock().unwrap();
 
         // SAFETY: We require that the item_ptr points to the same type as in
@@ -608,18 +638,26 @@ impl ErasedList {
     }
 
     pub fn swap(&self, i: usize, j: usize) {
+        #[cfg(nlnetlabs_roto_verif)]
+        crate::verif_api::yield_point(25);
         self.0.lock().unwrap().swap(i, j)
     }
 
     pub fn len(&self) -> usize {
+        #[cfg(nlnetlabs_roto_verif)]
+        crate::verif_api::yield_point(26);
         self.0.lock().unwrap().len()
     }
 
     pub fn capacity(&self) -> usize {
+        #[cfg(nlnetlabs_roto_verif)]
+        crate::verif_api::yield_point(27);
         self.0.lock().unwrap().capacity()
     }
 
     pub fn is_empty(&self) -> bool {
+        #[cfg(nlnetlabs_roto_verif)]
+        crate::verif_api::yield_point(28);
         self.0.lock().unwrap().is_empty()
     }
 }
@@ -1387,5 +1425,43 @@ mod tests {
         }
 
         assert_eq!(total, (1..7).sum());
+    }
+}
+
+/// Verification-only wrappers around private list internals
+#[cfg(nlnetlabs_roto_verif)]
+pub mod verif {
+    use super::boundary::List;
+    use crate::Value;
+
+    /// `compute_capacity` as used by `RawList::reserve`
+    pub fn compute_capacity(size: usize, required: usize) -> usize {
+        super::compute_capacity(size, required)
+    }
+
+    /// The script-side `get` (`ffi::list_get`) applied to a typed list
+    ///
+    /// # Safety
+    ///
+    /// `out` must be valid for writes of a `RotoOption<T::Transformed>`.
+    pub unsafe fn list_get<T: Value>(out: *mut u8, this: &List<T>, idx: u64) {
+        // SAFETY: List<T> is a transparent wrapper around ErasedList
+        let erased: &super::ErasedList =
+            unsafe { &*(this as *const List<T> as *const super::ErasedList) };
+        // SAFETY: required from the caller
+        unsafe { super::ffi::list_get(out.cast(), erased.clone(), idx) }
+    }
+
+    /// `ErasedList == ErasedList` (what the script-side `==` calls) on typed
+    /// lists
+    pub fn erased_eq<T: Value>(a: &List<T>, b: &List<T>) -> bool {
+        // SAFETY: List<T> is a transparent wrapper around ErasedList
+        let (a, b): (&super::ErasedList, &super::ErasedList) = unsafe {
+            (
+                &*(a as *const List<T> as *const super::ErasedList),
+                &*(b as *const List<T> as *const super::ErasedList),
+            )
+        };
+        a == b
     }
 }
